@@ -1,23 +1,29 @@
+// Command verif-sim is the single simulation binary: every engine (one per
+// claimed property) is linked in and selected by its property id.
 package main
 
 import (
 	"fmt"
 	"os"
+
+	_ "verif/sim/engines/c20"
+	"verif/sim/harness"
 )
 
-type engine func(args []string) int
-
-var engines = map[string]engine{}
-
 func main() {
-	if len(os.Args) < 2 {
-		fmt.Fprintln(os.Stderr, "usage: verif-sim <engine> [flags]")
-		os.Exit(2)
+	if len(os.Args) > 1 && os.Args[1] == "smoke" {
+		os.Exit(smoke(os.Args[2:]))
 	}
-	e := engines[os.Args[1]]
-	if e == nil {
-		fmt.Fprintf(os.Stderr, "verif-sim: unknown engine %q\n", os.Args[1])
-		os.Exit(2)
+	// Instrumented code under test may print; results go to files.
+	harness.Out = os.Stdout
+	if os.Getenv("VERIF_KEEP_STDOUT") == "" {
+		if dn, err := os.OpenFile(os.DevNull, os.O_WRONLY, 0); err == nil {
+			os.Stdout = dn
+		}
 	}
-	os.Exit(e(os.Args[2:]))
+	rc := harness.Main(os.Args[1:])
+	if rc != 0 && rc != 1 && rc != 3 {
+		fmt.Fprintln(os.Stderr, "verif-sim: exit", rc)
+	}
+	os.Exit(rc)
 }
